@@ -40,14 +40,14 @@ type OnceSpec struct {
 }
 
 // state bits: count c in {0,1,2(=2+)} x pending p in {0,1}: bit (c*2+p)
-type onceState uint8
+type onceState uint16
 
-func bit(c, p int) onceState { return 1 << uint(c*2+p) }
+func bit(c, p int) onceState { return 1 << uint(c*4+p) }
 
 func (s onceState) inc() onceState {
 	var o onceState
 	for c := 0; c < 3; c++ {
-		for p := 0; p < 2; p++ {
+		for p := 0; p < 4; p++ {
 			if s&bit(c, p) != 0 {
 				nc := c + 1
 				if nc > 2 {
@@ -67,11 +67,56 @@ func (s onceState) setPending() (onceState, bool) {
 		if s&bit(c, 1) != 0 {
 			clash = true
 		}
-		if s&(bit(c, 0)|bit(c, 1)) != 0 {
+		if s&(bit(c, 0)|bit(c, 1)|bit(c, 2)|bit(c, 3)) != 0 {
 			o |= bit(c, 1)
 		}
 	}
 	return o, clash
+}
+
+// setConst records that the pending variable holds a known constant and no
+// conditional discharge is outstanding.
+func (s onceState) setConst(v bool) onceState {
+	var o onceState
+	p := 3
+	if v {
+		p = 2
+	}
+	for c := 0; c < 3; c++ {
+		if s&(bit(c, 0)|bit(c, 1)|bit(c, 2)|bit(c, 3)) != 0 {
+			o |= bit(c, p)
+		}
+	}
+	return o
+}
+
+// resolveVal: the branch establishes that the variable has value val.
+// discharged(val) tells whether an outstanding conditional discharge with
+// that result counts. States whose known constant contradicts val are dropped.
+func (s onceState) resolveVal(val bool, discharged bool) onceState {
+	var o onceState
+	for c := 0; c < 3; c++ {
+		if s&bit(c, 0) != 0 {
+			o |= bit(c, 0)
+		}
+		if s&bit(c, 1) != 0 {
+			nc := c
+			if discharged {
+				nc = c + 1
+				if nc > 2 {
+					nc = 2
+				}
+			}
+			o |= bit(nc, 0)
+		}
+		if s&bit(c, 2) != 0 && val {
+			o |= bit(c, 0)
+		}
+		if s&bit(c, 3) != 0 && !val {
+			o |= bit(c, 0)
+		}
+	}
+	return o
 }
 
 // resolve pending: discharged => inc and clear, else just clear
@@ -96,9 +141,9 @@ func (s onceState) resolve(discharged bool) onceState {
 }
 
 func (s onceState) counts() (zero, one, many, pending bool) {
-	zero = s&(bit(0, 0)|bit(0, 1)) != 0
-	one = s&(bit(1, 0)|bit(1, 1)) != 0
-	many = s&(bit(2, 0)|bit(2, 1)) != 0
+	zero = s&(bit(0, 0)|bit(0, 1)|bit(0, 2)|bit(0, 3)) != 0
+	one = s&(bit(1, 0)|bit(1, 1)|bit(1, 2)|bit(1, 3)) != 0
+	many = s&(bit(2, 0)|bit(2, 1)|bit(2, 2)|bit(2, 3)) != 0
 	pending = s&(bit(0, 1)|bit(1, 1)|bit(2, 1)) != 0
 	return
 }
@@ -120,6 +165,27 @@ func CheckOnce(f *Func, body *ast.BlockStmt, g *Graph, spec OnceSpec) OnceResult
 		when    string
 	}
 	var pend *condInfo
+	inlineCalls := map[*ast.CallExpr]bool{}
+	// pre-scan: the variable that receives a conditional discharge result
+	ast.Inspect(body, func(x ast.Node) bool {
+		if _, isLit := x.(*ast.FuncLit); isLit && x != ast.Node(body) {
+			return false
+		}
+		as, ok := x.(*ast.AssignStmt)
+		if !ok || len(as.Rhs) != 1 {
+			return true
+		}
+		call, ok := unparen(as.Rhs[0]).(*ast.CallExpr)
+		if !ok {
+			return true
+		}
+		if ev := spec.Call(call); ev.Kind == EvCond && ev.ResultIdx < len(as.Lhs) {
+			if id, ok := as.Lhs[ev.ResultIdx].(*ast.Ident); ok && id.Name != "_" && pend == nil {
+				pend = &condInfo{id.Name, ev.When}
+			}
+		}
+		return true
+	})
 	// node transfer
 	nodeEvents := func(n ast.Node, st onceState) onceState {
 		switch n.(type) {
@@ -129,6 +195,15 @@ func CheckOnce(f *Func, body *ast.BlockStmt, g *Graph, spec OnceSpec) OnceResult
 		if spec.Node != nil && spec.Node(n) {
 			res.Events++
 			st = st.inc()
+		}
+		if as, ok := n.(*ast.AssignStmt); ok && pend != nil && len(as.Lhs) == len(as.Rhs) {
+			for i, l := range as.Lhs {
+				if id, ok := l.(*ast.Ident); ok && id.Name == pend.varName {
+					if v, isC := constBool(info, as.Rhs[i]); isC {
+						st = st.setConst(v)
+					}
+				}
+			}
 		}
 		ast.Inspect(n, func(x ast.Node) bool {
 			if x == nil {
@@ -157,12 +232,22 @@ func CheckOnce(f *Func, body *ast.BlockStmt, g *Graph, spec OnceSpec) OnceResult
 					}
 				}
 				if name == "" {
+					// the call is tested directly in a branch condition
+					if e, isExpr := n.(ast.Expr); isExpr && containsNode(e, false, func(y ast.Node) bool { return y == ast.Node(call) }) {
+						name = "#inline"
+						inlineCalls[call] = true
+					}
+				}
+				if name == "" {
 					res.Problems = append(res.Problems, fmt.Sprintf("conditional discharge %s: result is not stored in a local variable", ev.Label))
 					st = st.inc()
 					return true
 				}
-				if pend != nil && (pend.varName != name || pend.when != ev.When) {
+				if pend != nil && pend.varName != "#inline" && name != "#inline" && (pend.varName != name || pend.when != ev.When) {
 					res.Problems = append(res.Problems, "more than one conditional discharge variable")
+				}
+				if pend != nil && name == "#inline" {
+					name = pend.varName
 				}
 				pend = &condInfo{name, ev.When}
 				var clash bool
@@ -185,14 +270,21 @@ func CheckOnce(f *Func, body *ast.BlockStmt, g *Graph, spec OnceSpec) OnceResult
 		}
 		for _, ft := range decompose(cond, k == 0, nil) {
 			e := unparen(ft.Cond)
+			if call, ok := e.(*ast.CallExpr); ok && inlineCalls[call] {
+				val := ft.Val
+				if pend.when == "false" {
+					val = !val
+				}
+				return st.resolve(val)
+			}
 			switch pend.when {
 			case "true", "false":
 				if id, ok := e.(*ast.Ident); ok && id.Name == pend.varName {
-					val := ft.Val
+					disch := ft.Val
 					if pend.when == "false" {
-						val = !val
+						disch = !disch
 					}
-					return st.resolve(val)
+					return st.resolveVal(ft.Val, disch)
 				}
 			case "nil", "nonnil":
 				if be, ok := e.(*ast.BinaryExpr); ok && (be.Op == token.EQL || be.Op == token.NEQ) && exprStr(be.Y) == "nil" {
